@@ -83,6 +83,8 @@ def run(chk):
     from lib import unlink
     unlink.run(chk)
     unlink.run_pass_data(chk)
+    from lib import emitsiblings
+    emitsiblings.run_bind_last(chk)
 
     return chk.finish(
         level="other",
